@@ -97,17 +97,52 @@ def run_engine_k(prop, tier, seed, only=None):
     stubbing = any("kani::stub" in open(os.path.join(common.OVERLAY, f)).read() for f in files)
     out = {"selected": sel, "files": files, "results": {}, "violations": [], "known": [], "inconclusive": [],
            "build_ok": True, "wall": 0.0, "cap_s": cap_s, "mem_gb": mem_gb, "jobs": jobs}
-    with common.Scratch(prop + "." + tier) as sc:
+    dropped = []
+    attempt = 0
+    while True:
+        attempt += 1
+        sc = common.Scratch(prop + "." + tier)
+        sc.__enter__()
         try:
             sc.install_overlay(files, tier=tier)
         except common.OverlayError as e:
+            sc.__exit__(None, None, None)
             out["build_ok"] = False
             out["inconclusive"].append(("overlay", str(e)))
             return out
         sc.patch_memchr()
         results, build_ok, raw, wall, seeded = kani.run_kani(sc, sel, cap_s, mem_gb, jobs, stubbing=stubbing)
-        out["wall"] = wall
+        out["wall"] += wall
         out["seeded_deps"] = seeded
+        if build_ok or attempt >= 3:
+            break
+        # a harness file that no longer compiles against /repo's tree (e.g. a private API changed) must not
+        # take the other harnesses down with it: drop the offending overlay files and try again
+        bad = sorted(set(re.findall(r"--> (src/[^:\s]*verif_kani[^:\s]*\.rs)", raw)))
+        bad = [b for b in bad if b in files]
+        if not bad:
+            break
+        changed = True
+        while changed:
+            changed = False
+            for rel in files:
+                if rel in bad:
+                    continue
+                reqs = re.findall(r"^//\s*@requires\s+(\S+)", open(os.path.join(common.OVERLAY, rel)).read(), re.M)
+                if any(r in bad for r in reqs):
+                    bad.append(rel)
+                    changed = True
+        for h in [h for h in sel if h.rel in bad]:
+            dropped.append(h)
+            out["inconclusive"].append((h.name, "harness file %s does not compile against /repo's current tree" % h.rel))
+        sel = [h for h in sel if h.rel not in bad]
+        files = [f for f in files if f not in bad]
+        out["selected"], out["files"] = sel, files
+        sc.__exit__(None, None, None)
+        if not sel:
+            out["build_ok"] = False
+            return out
+    try:
         out["results"] = results
         if not build_ok:
             out["build_ok"] = False
@@ -130,6 +165,9 @@ def run_engine_k(prop, tier, seed, only=None):
                     out["known"].append((h.name, k))
                     r["verdict"] = "known-finding"
                     continue
+                if os.environ.get("VERIF_NO_REPLAY"):
+                    out["inconclusive"].append((h.name, "violation (replay skipped): " + why))
+                    continue
                 # replay before reporting
                 test_src, praw = kani.concrete_playback(sc, h, cap_s, mem_gb, stubbing=stubbing)
                 rp = os.path.join(common.REPLAY, prop, h.name + ".rs")
@@ -148,6 +186,8 @@ def run_engine_k(prop, tier, seed, only=None):
                 else:
                     out["inconclusive"].append((h.name, "counterexample did not reproduce natively (encoding/stub issue?): " + why))
                     r["verdict"] = "inconclusive"
+    finally:
+        sc.__exit__(None, None, None)
     return out
 
 
